@@ -204,8 +204,14 @@ def check_pair(a: str, b: str, t: Tally) -> List[Violation]:
     rejects those for their conflicting JSON names)."""
     out: List[Violation] = []
     ka, kb = field_keys(a), field_keys(b)
-    if ka is None or kb is None or ka[0] == kb[0] or (ka[1] & kb[1]):
+    if ka is None or kb is None or ka[0] == kb[0]:
         return out
+    if ka[1] & kb[1]:
+        # a DERIVED key of one field coincides with a key of the other (line_1 -> 'line1' next to
+        # line1; protoc rejects such pairs in .proto files, hand-written classes can have them):
+        # derived keys are then ambiguous, but each field's OWN name still belongs to that field,
+        # whatever the declaration order
+        return check_own_names(a, b, ka, kb, t) + check_own_names(b, a, kb, ka, t)
     t.inc("pairs")
 
     def bad(oracle: str, detail: str):
@@ -240,6 +246,35 @@ def check_pair(a: str, b: str, t: Tally) -> List[Violation]:
             seen.add(k)
             uniq.append(v)
     return uniq
+
+
+def check_own_names(a: str, b: str, ka, kb, t: Tally) -> List[Violation]:
+    import dataclasses
+    out: List[Violation] = []
+    # (own name = the python field name: a message class does not know the .proto spelling, which
+    # may itself be a derived key of the other field - 'a1AB' is camelCase of a1_a_b)
+    own_a = {ka[0]}
+    own_b = {kb[0]}
+    if not own_a or not own_b:
+        return out
+    t.inc("clashing_pairs")
+    try:
+        cls = dataclasses.make_dataclass(
+            "N2c", [(ka[0], int, betterproto.int32_field(1)), (kb[0], int, betterproto.int32_field(2))],
+            bases=(betterproto.Message,), eq=False, repr=False)
+        cls.__module__ = "vf_c19_mod"
+        for (py, keys), (opy, _), val in (((ka[0], own_a), (kb[0], None), 7), ((kb[0], own_b), (ka[0], None), 9)):
+            for k in sorted(keys):
+                back = cls().from_dict({k: val})
+                t.inc("edges")
+                if getattr(back, py) != val or getattr(back, opy) != 0:
+                    out.append(Violation(["names", "own-name-misrouted", "pair:" + shape(a) + "+" + shape(b)],
+                                         f"fields {a!r} then {b!r} in one message: from_dict({{{k!r}: {val}}}) gives {back!r}; "
+                                         f"{k!r} is the own name of field {py!r}"[:400], {"pair": [a, b], "clash": True}))
+    except Exception as e:
+        out.append(Violation(["names", "pair-raised", "pair:" + shape(a) + "+" + shape(b)],
+                             f"fields {a!r} and {b!r}: {type(e).__name__}: {e}"[:300], {"pair": [a, b], "clash": True}))
+    return out[:1]
 
 
 def _shard_pairs(shard: int, nshards: int, maxlen: int) -> Tally:
